@@ -57,6 +57,22 @@ def _stale_keys(ops, steps):
     return out
 
 
+def _stale_closure(stale, steps):
+    """stale keys plus everything hanging below them through child links in any raw dump of the history"""
+    out = set(stale)
+    grew = True
+    while grew:
+        grew = False
+        for st in steps:
+            for n in st["file"]["nodes"]:
+                if tuple(n["key"]) in out:
+                    for l in n["links"]:
+                        if tuple(l[0]) not in out:
+                            out.add(tuple(l[0]))
+                            grew = True
+    return out
+
+
 def _key_of_path(path):
     import uuid
 
@@ -76,7 +92,7 @@ def oracle(case, obs):
             return [{"key": "unexpected-exception", "what": f"op {i} {ops[i]}: {st['outcome']}"}]
     fails = []
     detached = _removed_via_parent(ops, steps)
-    stale = _stale_keys(ops, steps)
+    stale = _stale_closure(_stale_keys(ops, steps), steps) if _stale_keys(ops, steps) else set()
     seen = set()
     for fl in obs["validations"] + [obs["final_validation"]]:
         for f in fl:
